@@ -717,6 +717,11 @@ class Messenger(Connection):
                     return
 
             # Both sides immediately try TLS, Client initiates handshake
+            if self._tls_attempt and self.__rx_buf:
+                # Whatever followed the contact header arrived in the clear
+                self._logger.error('Cleartext octets received ahead of the TLS handshake')
+                self.close()
+                return
             if self._tls_attempt:
                 # flush the buffers ahead of TLS
                 while self.__tx_buf:
